@@ -216,7 +216,8 @@ Definition recompute_cardinality_param (c : cat_inst) : cat_inst :=
 Definition count_none (nic st : option (list N)) (rst : option (list (list N))) : nat :=
   (if is_none nic then 1 else 0) + (if is_none st then 1 else 0) + (if is_none rst then 1 else 0).
 
-Definition from_ordinal (src : ord_src) (nic st : option (list N)) (rst : option (list (list N)))
+(* everything from_ordinal does with its instance and its three truncation parameters *)
+Definition from_ordinal_params (src : ord_src) (nic st : option (list N)) (rst : option (list (list N)))
   : result cat_inst :=
   if (count_none nic st rst <? 2)%nat then Err ValueErr
   else if (count_none nic st rst =? 3)%nat then Err ValueErr
@@ -236,6 +237,15 @@ Definition from_ordinal (src : ord_src) (nic st : option (list N)) (rst : option
                  ci_num_unique_preferences := lenN prefs;
                  ci_num_voters := 0 |})
     end.
+
+(* from_ordinal(instance, num_indif_classes, size_truncators, relative_size_truncators, category_name).
+   `category_name` ("List of category names", None or a list of str) is documented but the current code
+   never reads it: it is IGNORED ENTIRELY — neither the number of categories (always the maximum
+   unpadded ballot length) nor categories_name (always "Cat_<k>") depends on it.  The model takes
+   the argument and drops it, so that every theorem is quantified over it. *)
+Definition from_ordinal (src : ord_src) (nic st : option (list N)) (rst : option (list (list N)))
+           (category_name : option (list text)) : result cat_inst :=
+  from_ordinal_params src nic st rst.
 
 (* ---- factorise_instance -------------------------------------------------------------------- *)
 Fixpoint fact_loop (bs : list ballot) (mult : list (ballot * N)) (new : list ballot)
